@@ -217,6 +217,7 @@ def run(ctx):
 
     # ---- graph-level action: get_neighbors_decoded / apply_path, encoded and un-encoded, permutation and matrix ----
     gcases, gmetas = [], []
+    ecases, emetas = [], []
     for gi_ in range(ctx.budget(60, 500)):
         gd = G.gen_overflow_matrix_graph(rng, 300) if gi_ % 6 == 5 else G.gen_matrix_graph(rng, 300) if gi_ % 3 == 2 else G.gen_graph(rng, cap=300)
         layers, dist = G.ref_bfs(gd, [gd["central"]])
@@ -280,6 +281,12 @@ def run(ctx):
             auto = f"(Some ({max(gd['central'])}, {graph.string_encoder.w}%nat))"
             ctx.count("auto_width_checked")
         gcases.append(f"({G.coq_gdesc(gd, graph)}, {czll(sts)}, {czll(nb)}, {cnl(path)}, {czll(ap)}, {auto})")
+        # the ENCODED level (InstCodec.v): the internal rows the library computes - encode_states, then get_neighbors on them - against the model's
+        # get_neighbors_encoded on encoded_row (what C02_encoded_neighbors / C01_bfs_lib_is_model are about)
+        if gd["kind"] == "perm":
+            enc_ = graph.encode_states(torch.tensor(sts, dtype=torch.int64))
+            ecases.append(f"({G.coq_gdesc(gd, graph)}, {czll(sts)}, {czll(enc_.reshape(len(sts), -1).tolist())}, {czll(graph.get_neighbors(enc_).reshape(len(sts) * k, -1).tolist())})")
+            emetas.append({"graph": gd, "config": cfgd, "states": sts})
         gmetas.append({"graph": gd, "config": cfgd, "states": sts, "path": path})
         ctx.case_seen(["graph", gd, cfgd, sts, path], True)
         ctx.count("graph_" + gd["kind"])
@@ -380,6 +387,13 @@ def run(ctx):
     for i in bad[:3]:
         ctx.violation("correspondence", "graph-level action model (neighbours / path / auto width) differs from the implementation", gmetas[i], False)
     ctx.sample(gmetas[0])
+    bad = ctx.coq_failing("Base W64 Codec Perm Hash GraphImpl BfsRun InstPerm InstCodec", "", "gdesc * list (list Z) * list (list Z) * list (list Z)", ecases,
+                          "fun c => match c with (d, sts, enc, nbe) => z_list2_eqb (map (encoded_row d) sts) enc && z_list2_eqb (get_neighbors_encoded d enc) nbe end",
+                          "encoded", shard=80)
+    ctx.cov["disagreements_checked"] += len(ecases)
+    ctx.count("encoded_level_cases", len(ecases))
+    for i in bad[:3]:
+        ctx.violation("correspondence", "encoded-level model (encoded_row, get_neighbors_encoded of InstCodec.v) differs from encode_states / get_neighbors", emetas[i], False)
 
 
 def replay(ctx, obj):
